@@ -19,7 +19,7 @@ SEEDED = os.path.join(VERIF, "seeded")
 def evaluate(name, suite=True):
     d = os.path.join(SEEDED, name)
     parts = name.split("-")
-    prop = (parts[1] if parts[0] in ("R2", "R3", "R4", "R5", "R6", "R7", "R8") else parts[0]).rstrip("b")
+    prop = (parts[1] if parts[0] in ("R2", "R3", "R4", "R5", "R6", "R7", "R8", "R9") else parts[0]).rstrip("b")
     cmd = ["/venv/bin/python", os.path.join(VERIF, "tools", "eval_seeded.py"), prop, os.path.join(d, "patch.diff"),
            os.path.join(d, "demo.py"), "--tiers", "quick,thorough"]
     if not suite:
